@@ -13,7 +13,8 @@ from __future__ import annotations
 
 import ast
 
-from ..cfg import ENTRY, EXIT
+from ..cfg import EXIT, header_parts
+from ..flow import Defs, Scope, bool_eval, guard_facts, iterations, unreachable_when
 from ..loader import AnalysisError, dotted, norm, walk_no_nested
 from ..report import Ctx
 from ..selftest import Mutant
@@ -30,141 +31,160 @@ DECLINED = ["equality of evaluate() and the eager value (value-level)", "acyclic
 LZ = "pipefunc.lazy"
 
 
-def check(ctx: Ctx) -> None:  # noqa: C901, PLR0915
+def _expr_dead(stmt: ast.AST, node: ast.AST, env: dict[str, bool]) -> bool:
+    """`node` sits in an arm of a conditional expression inside `stmt` that is not evaluated under `env`."""
+    par = {id(c): p for p in ast.walk(stmt) for c in ast.iter_child_nodes(p)}
+    x = node
+    while id(x) in par:
+        child, x = x, par[id(x)]
+        if isinstance(x, ast.IfExp):
+            v = bool_eval(x.test, env)
+            if (v is True and child is x.orelse) or (v is False and child is x.body):
+                return True
+        if isinstance(x, ast.BoolOp) and child is not x.values[0]:
+            pass
+    return False
+
+
+def rule_deferred(ctx: Ctx) -> None:
     P = ctx.prog
-    # ------------------------------------------------------------ 1 deferred
     ef = P.func("pipefunc._pipeline._base._execute_func")
     cfg = ctx.cfg(ef)
-    lazy_ifs = cfg.nodes(lambda s: isinstance(s, ast.If) and norm(s.test) == "lazy")
-    calls = cfg.nodes(lambda s: isinstance(s, ast.Return) and s.value is not None and norm(s.value).startswith("func("))
-    if not lazy_ifs or not calls:
-        raise AnalysisError("_execute_func: lazy test or eager call not found")
-    lazy_if = cfg.stmt[lazy_ifs[0]]
-    ok = isinstance(lazy_if.body[-1], ast.Return) and "_LazyFunction(func, kwargs=func_args)" in norm(lazy_if.body[-1]) and all(cfg.dominates(lazy_ifs[0], c) for c in calls) \
-        and not any(isinstance(c, ast.Call) and norm(c.func) == "func" for st in lazy_if.body for c in ast.walk(st))
-    ctx.add("1-deferred", ef, lazy_if, ok, "lazy: returns _LazyFunction(func, kwargs=func_args) before any call" if ok else "the lazy arm of _execute_func runs the function (or no longer defers it)", key="execute-func")
+    d = Defs(ef)
+    fparam, lparam = ef.param_names()[0], "lazy"
+    if lparam not in ef.param_names():
+        raise AnalysisError("_execute_func has no `lazy` parameter")
+    eager = [(n, c) for n in cfg.nodes() for part in header_parts(cfg.stmt[n]) for c in ast.walk(part) if isinstance(c, ast.Call) and norm(c.func) == fparam]
+    forced = [(n, c) for n, c in eager if not unreachable_when(cfg, d, n, {lparam: True}) and not _expr_dead(cfg.stmt[n], c, {lparam: True})]
+    defers = [n for n in cfg.nodes(lambda s: isinstance(s, ast.Return) and s.value is not None and "_LazyFunction(" in norm(s.value)) if not unreachable_when(cfg, d, n, {lparam: True})]
+    ctx.tri("1-deferred", ef, cfg.stmt[forced[0][0]] if forced else ef.node, bool(eager) and not forced and bool(defers), bool(forced),
+            "lazy: a _LazyFunction is returned and the function is not called", f"`{norm(forced[0][1])[:50] if forced else ''}` is evaluated although lazy=True: the function runs at graph-construction time", "eager call / lazy return not recognised", key="execute-func")
     ur = P.func("pipefunc._pipeline._base._update_all_results")
-    pick = [c for c in ast.walk(ur.node) if isinstance(c, ast.Call) and norm(c.func) == "func.output_picker"]
-    par = {id(c): p for p in ast.walk(ur.node) for c in ast.iter_child_nodes(p)}
-    ok = bool(pick)
-    for c in pick:
-        x: ast.AST = c
-        guarded = False
-        while id(x) in par:
-            child, x = x, par[id(x)]
-            if isinstance(x, ast.IfExp) and norm(x.test) == "lazy" and child is x.orelse:
-                guarded = True
-            if isinstance(x, ast.If) and norm(x.test) in ("lazy",) and child in x.orelse:
-                guarded = True
-            if isinstance(x, ast.If) and norm(x.test) in ("not lazy",) and child in x.body:
-                guarded = True
-        ok &= guarded
-    ctx.add("1-deferred", ur, pick[0] if pick else ur.node, ok, "output_picker is only called on the eager arm" if ok else "output_picker is called while lazy: the producer is forced before evaluate()", key="picker-eager-only")
+    cfg = ctx.cfg(ur)
+    d = Defs(ur)
+    picks = [(n, c) for n in cfg.nodes() for part in header_parts(cfg.stmt[n]) for c in ast.walk(part) if isinstance(c, ast.Call) and norm(c.func).endswith(".output_picker")]
+    forced = [(n, c) for n, c in picks if not unreachable_when(cfg, d, n, {"lazy": True}) and not _expr_dead(cfg.stmt[n], c, {"lazy": True})]
+    ctx.tri("1-deferred", ur, cfg.stmt[forced[0][0]] if forced else ur.node, bool(picks) and not forced, bool(forced), "output_picker is only called on the eager arm",
+            "output_picker is called while lazy: the producer is forced before evaluate()", "output_picker call not found", key="picker-eager-only")
+    rparam = ur.param_names()[1]
     lz_arm = [c for c in ast.walk(ur.node) if isinstance(c, ast.Call) and dotted(c.func) == "_LazyFunction"]
-    ok = bool(lz_arm) and norm(lz_arm[0]) == "_LazyFunction(func.output_picker, args=(r, name))"
-    ctx.add("3-shared", ur, lz_arm[0] if lz_arm else ur.node, ok, "each name defers picker(r, name) on the SAME deferred result r" if ok else "per-name lazy outputs no longer share the one deferred result `r`", key="shared-r")
+    if lz_arm:
+        a_ = next((k.value for k in lz_arm[0].keywords if k.arg == "args"), lz_arm[0].args[1] if len(lz_arm[0].args) > 1 else None)
+        names = {x.id for x in ast.walk(a_) if isinstance(x, ast.Name)} if a_ is not None else set()
+        calls_in = [c for c in ast.walk(a_) if isinstance(c, ast.Call)] if a_ is not None else []
+        ctx.tri("3-shared", ur, lz_arm[0], rparam in names and not calls_in, rparam not in names or bool(calls_in), "each name defers picker(r, name) on the SAME deferred result r",
+                "per-name lazy outputs do not share the one deferred result: the producer is evaluated once per name (or eagerly)", key="shared-r")
 
-    # ------------------------------------------------------------ 2 memo
+
+def rule_memo(ctx: Ctx) -> None:
+    P = ctx.prog
     ev = P.func(f"{LZ}._LazyFunction.evaluate")
     cfg = ctx.cfg(ev)
+    d = Defs(ev)
     call_nodes = cfg.nodes(lambda s: any(isinstance(c, ast.Call) and norm(c.func) == "self.func" for c in ast.walk(s)) and not isinstance(s, (ast.If, ast.For, ast.While)))
     if len(call_nodes) != 1:
         raise AnalysisError(f"_LazyFunction.evaluate: expected one call of self.func, found {len(call_nodes)}")
     cn = call_nodes[0]
-    guards = cfg.nodes(lambda s: isinstance(s, ast.If) and norm(s.test) == "self._evaluated")
-    g_ok = bool(guards) and isinstance(cfg.stmt[guards[0]].body[-1], ast.Return) and norm(cfg.stmt[guards[0]].body[-1].value) == "self._result" and cfg.dominates(guards[0], cn)
-    ctx.add("2-memo", ev, cfg.stmt[guards[0]] if guards else ev.node, g_ok, "already evaluated -> return the stored result, before the call" if g_ok else "evaluate() calls the function again although it was evaluated", key="early-return")
-    set_flag = set(cfg.nodes(lambda s: isinstance(s, ast.Assign) and norm(s.targets[0]) == "self._evaluated" and norm(s.value) == "True"))
-    set_res = set(cfg.nodes(lambda s: isinstance(s, ast.Assign) and norm(s.targets[0]) == "self._result"))
-    ok = bool(set_flag) and cfg.must_pass(cn, EXIT, set_flag, normal_only=True) and all(cfg.dominates(cn, f) for f in set_flag)
-    ctx.add("2-memo", ev, cfg.stmt[min(set_flag)] if set_flag else ev.node, ok, "`_evaluated = True` is set after the call on every path to the return" if ok else
+    facts = guard_facts(cfg, d, cn)
+    g_ok = any(t == "self._evaluated" and not pol for t, pol in facts)
+    ctx.add("2-memo", ev, cfg.stmt[cn], g_ok, "the call only happens when `_evaluated` is false" if g_ok else "evaluate() calls the function again although it was evaluated (the call is not guarded by `_evaluated`)", key="early-return")
+    set_flag = set(cfg.nodes(lambda s: isinstance(s, ast.Assign) and any(norm(t) == "self._evaluated" for t in s.targets) and norm(s.value) == "True"))
+    set_res = set(cfg.nodes(lambda s: isinstance(s, ast.Assign) and any(norm(t) == "self._result" for t in s.targets)))
+    before = [f for f in set_flag if not cfg.dominates(cn, f)]
+    ok = bool(set_flag) and cfg.must_pass(cn, EXIT, set_flag, normal_only=True) and not before
+    ctx.add("2-memo", ev, cfg.stmt[(before or sorted(set_flag) or [cn])[0]], ok, "`_evaluated = True` is set after the call on every path to the return" if ok else
             "`_evaluated` is set before the call (a raising call memoises None) or not on every path (the function runs again)", key="flag-after-call")
     ok = bool(set_res) and cfg.must_pass(cn, EXIT, set_res, normal_only=True) and all(cfg.dominates(cn, f) for f in set_res)
-    res_stmt = cfg.stmt[min(set_res)] if set_res else None
-    call_stmt = cfg.stmt[cn]
-    val_ok = res_stmt is not None and (norm(res_stmt.value) == norm(call_stmt.targets[0]) if isinstance(call_stmt, ast.Assign) else norm(res_stmt.value).startswith("self.func("))
-    ctx.add("2-memo", ev, res_stmt if res_stmt is not None else ev.node, ok and val_ok, "the call's value is stored in `_result`" if ok and val_ok else "the result of the call is not stored in `_result` on every path", key="result-stored")
-    the_call = next(c for c in ast.walk(call_stmt) if isinstance(c, ast.Call) and norm(c.func) == "self.func")
-    star = [norm(a.value) for a in the_call.args if isinstance(a, ast.Starred)]
-    dstar = [norm(k.value) for k in the_call.keywords if k.arg is None]
-    defs = {norm(s.targets[0]): norm(s.value) for s in walk_no_nested(ev.node) if isinstance(s, ast.Assign)}
-    ok = len(star) == 1 and len(dstar) == 1 and defs.get(star[0]) == "evaluate_lazy(self.args)" and defs.get(dstar[0]) == "evaluate_lazy(self.kwargs)"
-    ctx.add("2-memo", ev, the_call, ok, "called with evaluate_lazy(self.args) / evaluate_lazy(self.kwargs)" if ok else "evaluate() does not resolve its own lazy arguments before the call (or drops args/kwargs)", key="args-resolved")
-    rets = [r for r in walk_no_nested(ev.node) if isinstance(r, ast.Return)]
-    ok = bool(rets) and norm(rets[-1].value) in ("result", "self._result")
-    ctx.add("2-memo", ev, rets[-1] if rets else ev.node, ok, "returns the computed result" if ok else "evaluate() does not return the computed result", key="return")
-    init = P.func(f"{LZ}._LazyFunction.__init__")
-    ok = "self._evaluated = False" in norm(init.node) and "self._result = None" in norm(init.node)
-    ctx.add("2-memo", init, init.node, ok, "a new node starts unevaluated" if ok else "_LazyFunction does not start with _evaluated = False", key="init-state")
+    ctx.add("2-memo", ev, cfg.stmt[min(set_res)] if set_res else ev.node, ok, "the call's value is stored in `_result`" if ok else "the result of the call is not stored in `_result` on every path", key="result-stored")
+    the_call = next(c for c in ast.walk(cfg.stmt[cn]) if isinstance(c, ast.Call) and norm(c.func) == "self.func")
+    star = [norm(d.resolve(a.value)) for a in the_call.args if isinstance(a, ast.Starred)]
+    dstar = [norm(d.resolve(k.value)) for k in the_call.keywords if k.arg is None]
+    good = star == ["evaluate_lazy(self.args)"] and dstar == ["evaluate_lazy(self.kwargs)"]
+    raw = [t for t in star + dstar if t in ("self.args", "self.kwargs")] or ([] if star else ["*args missing"]) or ([] if dstar else ["**kwargs missing"])
+    ctx.tri("2-memo", ev, the_call, good, bool(raw), "called with evaluate_lazy(self.args) / evaluate_lazy(self.kwargs)",
+            f"evaluate() passes {raw} to the function: lazy arguments are not resolved (or args/kwargs are dropped)", "argument resolution not recognised", key="args-resolved")
 
-    # ------------------------------------------------------------ 4 recursion
+
+def rule_recursion(ctx: Ctx) -> None:
+    P = ctx.prog
     el = P.func(f"{LZ}.evaluate_lazy")
-    kinds = {}
-    for s in [s for s in el.node.body if isinstance(s, ast.If)]:
-        t = norm(s.test)
-        for k in ("_LazyFunction", "dict", "tuple", "list", "set"):
-            if f"isinstance(x, {k})" == t:
-                kinds[k] = s
+    tested: dict[str, list[ast.AST]] = {}
+    for s_ in [s_ for s_ in ast.walk(el.node) if isinstance(s_, (ast.If, ast.IfExp))]:
+        for c in [c for c in ast.walk(s_.test) if isinstance(c, ast.Call) and dotted(c.func) == "isinstance" and len(c.args) == 2]:
+            for x in ast.walk(c.args[1]):
+                if isinstance(x, (ast.Name, ast.Attribute)):
+                    tested.setdefault(norm(x).rsplit(".", 1)[-1], []).append(s_)
     for k in ("_LazyFunction", "dict", "tuple", "list", "set"):
-        s = kinds.get(k)
-        ok = s is not None and ("x.evaluate()" in norm(s) if k == "_LazyFunction" else "evaluate_lazy(v)" in norm(s))
-        ctx.add("4-recursion", el, s if s is not None else el.node, ok, f"{k}: evaluated recursively" if ok else f"evaluate_lazy does not descend into `{k}`", key=f"kind {k}")
-    dct = kinds.get("dict")
-    ok = dct is not None and "{k: evaluate_lazy(v) for k, v in x.items()}" in norm(dct)
-    ctx.add("4-recursion", el, dct if dct is not None else el.node, ok, "dict keys are kept" if ok else "dict keys are lost while evaluating", key="dict-keys")
+        regions = tested.get(k, [])
+        rec = any("evaluate_lazy(" in norm(r) or ".evaluate()" in norm(r) for r in regions)
+        ctx.tri("4-recursion", el, regions[0] if regions else el.node, rec, not regions, f"{k}: evaluated recursively", f"evaluate_lazy never tests for `{k}`: lazy values inside a {k} reach the user function unevaluated", f"{k}: branch found but no recursive call recognised", key=f"kind {k}")
     call = P.func("pipefunc._pipefunc.PipeFunc.__call__")
-    cfg = ctx.cfg(call)
-    user = cfg.nodes(lambda s: any(isinstance(c, ast.Call) and norm(c.func) == "self.func" for c in ast.walk(s)) and not isinstance(s, (ast.If, ast.With, ast.Try)))
-    gate = cfg.nodes(lambda s: isinstance(s, ast.If) and norm(s.test) == "self._evaluate_lazy")
-    ok = bool(user) and bool(gate)
-    if ok:
-        body = cfg.stmt[gate[0]].body
-        ok = {"args = evaluate_lazy(args)", "kwargs = evaluate_lazy(kwargs)"} <= {norm(s) for s in body} and all(cfg.dominates(gate[0], u) for u in user)
-    ctx.add("4-recursion", call, cfg.stmt[gate[0]] if gate else call.node, ok, "lazy args and kwargs are evaluated before the wrapped function is called" if ok else
-            "PipeFunc.__call__ passes unevaluated lazy objects to the user function (args or kwargs not resolved before the call)", key="call-resolves")
+    user = [c for c in ast.walk(call.node) if isinstance(c, ast.Call) and norm(c.func) == "self.func"]
+    if user:
+        splat = [norm(a.value) for a in user[0].args if isinstance(a, ast.Starred)] + [norm(k.value) for k in user[0].keywords if k.arg is None]
+        resolved = {norm(t) for s_ in ast.walk(call.node) if isinstance(s_, ast.Assign) and isinstance(s_.value, ast.Call) and dotted(s_.value.func) == "evaluate_lazy" for t in s_.targets}
+        resolved |= {x.id for s_ in ast.walk(call.node) if isinstance(s_, ast.Assign) and isinstance(s_.targets[0], ast.Tuple) and "evaluate_lazy(" in norm(s_.value) for x in s_.targets[0].elts if isinstance(x, ast.Name)}
+        missing = [n_ for n_ in splat if n_ not in resolved]
+        ctx.tri("4-recursion", call, user[0], bool(splat) and not missing, bool(missing) and bool(resolved), "lazy args and kwargs are evaluated before the wrapped function is called",
+                f"PipeFunc.__call__ never passes {missing} through evaluate_lazy: unevaluated lazy objects reach the user function", "resolution of lazy arguments not recognised", key="call-resolves")
     elz = P.func("pipefunc._pipefunc.PipeFunc._evaluate_lazy")
-    ok = "any((p.lazy for p in self._pipelines))" in norm(elz.node)
-    ctx.add("4-recursion", elz, elz.node, ok, "enabled when any owning pipeline is lazy" if ok else "_evaluate_lazy no longer reflects the owning pipelines' lazy flag", key="flag")
+    t = norm(elz.node)
+    ctx.tri("4-recursion", elz, elz.node, ".lazy" in t and "_pipelines" in t, ".lazy" not in t, "enabled when an owning pipeline is lazy", "_evaluate_lazy no longer reflects the owning pipelines' lazy flag", key="flag")
 
-    # ------------------------------------------------------------ 5 dag
-    src = norm(init.node)
-    gate_if = [s for s in walk_no_nested(init.node) if isinstance(s, ast.If) and norm(s.test) == "_TASK_GRAPH is not None"]
-    ok = bool(gate_if)
-    ctx.add("5-dag", init, gate_if[0] if gate_if else init.node, ok, "registration only under an active construct_dag" if ok else "task graph registration is not guarded by `_TASK_GRAPH is not None`", key="gate")
-    add_edge = init.nested.get("add_edge")
-    if add_edge is None:
-        raise AnalysisError("_LazyFunction.__init__.add_edge not found")
-    edges = [c for c in ast.walk(add_edge.node) if isinstance(c, ast.Call) and norm(c.func) == "_TASK_GRAPH.graph.add_edge"]
-    ok = len(edges) >= 2 and all(len(c.args) == 2 and norm(c.args[1]) == "self._id" and norm(c.args[0]).endswith("._id") and norm(c.args[0]) != "self._id" for c in edges)
-    ctx.add("5-dag", add_edge, edges[0] if edges else add_edge.node, ok, "edges point producer._id -> self._id" if ok else "edge direction / endpoints changed (must be argument -> consumer)", key="direction")
-    ok = any(isinstance(s, ast.For) and norm(s.iter) == "arg" for s in ast.walk(add_edge.node)) and "isinstance(arg, Iterable)" in norm(add_edge.node)
-    ctx.add("5-dag", add_edge, add_edge.node, ok, "lazy items inside container arguments get an edge too" if ok else "lazy values nested in a container argument no longer get an edge", key="containers")
-    loops = [s for s in ast.walk(gate_if[0]) if isinstance(s, ast.For)] if gate_if else []
-    iters = {norm(s.iter) for s in loops}
-    ok = "self.args" in iters and any(i in iters for i in ("kwargs.values()", "self.kwargs.values()"))
-    ctx.add("5-dag", init, gate_if[0] if gate_if else init.node, ok, "edges registered for positional AND keyword arguments" if ok else f"edges are registered only for {sorted(iters)}", key="args-and-kwargs")
-    ok = all(any(isinstance(c, ast.Call) and dotted(c.func) == "add_edge" for c in ast.walk(s)) for s in loops if norm(s.iter) in ("self.args", "kwargs.values()", "self.kwargs.values()")) and bool(loops)
-    ctx.add("5-dag", init, init.node, ok, "each argument goes through add_edge" if ok else "an argument loop no longer calls add_edge", key="calls-add-edge")
-    node_add = "_TASK_GRAPH.graph.add_node(self._id, lazy_func=self)" in src and "_TASK_GRAPH.mapping[self._id] = self" in src
-    ctx.add("5-dag", init, init.node, node_add, "the node is registered under its id" if node_add else "the node itself is no longer registered in the task graph", key="node")
-    ids = [s for s in walk_no_nested(init.node) if isinstance(s, (ast.Assign, ast.AugAssign)) and "_counter" in norm(s)]
-    ok = len(ids) == 2 and norm(ids[0]) == "self._id = _LazyFunction._counter" and norm(ids[1]) == "_LazyFunction._counter += 1"
-    ctx.add("5-dag", init, ids[0] if ids else init.node, ok, "ids are unique and increase with construction order (edges go from older to newer nodes: acyclic)" if ok else "node ids are no longer assigned from an increasing counter", key="ids")
+
+def rule_dag(ctx: Ctx) -> None:  # noqa: C901, PLR0915
+    P = ctx.prog
+    init = P.func(f"{LZ}._LazyFunction.__init__")
+    sc = Scope(ctx, init)
+    reg = [(f, c) for f, c in sc.walk() if isinstance(c, ast.Call) and isinstance(c.func, ast.Attribute) and c.func.attr in ("add_edge", "add_node") and "graph" in norm(c.func.value)]
+    cfg = ctx.cfg(init)
+    ungated = []
+    for f, c in reg:
+        if f is not init:
+            continue
+        n = cfg.node_containing(c)
+        if n is not None and not any(t == "_TASK_GRAPH is None" and not pol for t, pol in guard_facts(cfg, Defs(init), n)):
+            ungated.append(c)
+    ctx.tri("5-dag", init, (ungated or [init.node])[0], bool(reg) and not ungated, bool(ungated), "registration only under an active construct_dag",
+            "the task graph is written without testing `_TASK_GRAPH is not None`", "registration calls not found", key="gate")
+    edges = [c for _f, c in reg if c.func.attr == "add_edge" and len(c.args) == 2]
+    rev = [c for c in edges if norm(c.args[0]) == "self._id" and norm(c.args[1]) != "self._id"]
+    fwd = [c for c in edges if norm(c.args[1]) == "self._id" and norm(c.args[0]) != "self._id"]
+    ctx.tri("5-dag", init, (rev or fwd or [init.node])[0], bool(fwd) and not rev, bool(rev), "edges point producer._id -> self._id",
+            "edges point from the consumer to its argument: the task graph is reversed (dependencies run after their consumers)", "edge registration not recognised", key="direction")
+    its = [norm(it["iter"]) for f in sc.funcs for it in iterations(f.node)]
+    pos = any(t in ("self.args", "args") for t in its)
+    kw = any(t.endswith("kwargs.values()") for t in its)
+    ctx.tri("5-dag", init, init.node, pos and kw, bool(edges) and pos != kw, "edges registered for positional AND keyword arguments",
+            f"edges are registered only for {'positional' if pos else 'keyword'} arguments: dependencies passed the other way are missing from the task graph", f"argument loops {its}", key="args-and-kwargs")
+    nested_ok = any("Iterable" in norm(f.node) or "isinstance(arg, (list" in norm(f.node) for f in sc.funcs)
+    ctx.tri("5-dag", init, init.node, nested_ok, False, "lazy items inside container arguments get an edge too", "", "handling of container arguments not recognised", key="containers")
+    ids = [s_ for s_ in walk_no_nested(init.node) if isinstance(s_, (ast.Assign, ast.AugAssign)) and "_counter" in norm(s_)]
+    inc = [s_ for s_ in ids if isinstance(s_, ast.AugAssign) and isinstance(s_.op, ast.Add)]
+    ctx.tri("5-dag", init, ids[0] if ids else init.node, bool(inc) and any(isinstance(s_, ast.Assign) and "self._id" in norm(s_.targets[0]) for s_ in ids), bool(ids) and not inc and not any("+ 1" in norm(s_) for s_ in ids),
+            "ids are unique and increase with construction order (edges go from older to newer nodes: acyclic)", "node ids are no longer assigned from an increasing counter", "id assignment not recognised", key="ids")
     writers = []
     for fn_ in P.functions.values():
         for s_ in walk_no_nested(fn_.node):
             tg_ = s_.targets if isinstance(s_, ast.Assign) else ([s_.target] if isinstance(s_, (ast.AugAssign, ast.AnnAssign)) else [])
             if any(isinstance(t_, ast.Attribute) and t_.attr == "_counter" for t_ in tg_):
                 writers.append(fn_.qualname)
-    ok = sorted(set(writers)) == [f"{LZ}._LazyFunction.__init__"]
-    ctx.add("5-dag", f"{LZ}._LazyFunction._counter", "", ok, "the id counter is only ever incremented, in the constructor" if ok else
-            f"the id counter is also written by {sorted(set(writers) - {f'{LZ}._LazyFunction.__init__'})}: ids repeat, so a lazy object created earlier collides with a new node (self-loops / cycles in the task graph)", key="counter-writers")
+    extra = sorted(set(writers) - {f"{LZ}._LazyFunction.__init__"})
+    ctx.add("5-dag", f"{LZ}._LazyFunction._counter", "", not extra, "the id counter is only ever incremented, in the constructor" if not extra else
+            f"the id counter is also written by {extra}: ids repeat, so a lazy object created earlier collides with a new node (self-loops / cycles in the task graph)", key="counter-writers")
     cd = P.func(f"{LZ}.construct_dag")
-    tr = [t for t in walk_no_nested(cd.node) if isinstance(t, ast.Try)]
-    ok = bool(tr) and any(norm(s) == "_TASK_GRAPH = None" for s in tr[0].finalbody) and any(isinstance(y, ast.Yield) for st in tr[0].body for y in ast.walk(st))
-    ctx.add("5-dag", cd, tr[0] if tr else cd.node, ok, "the global task graph is reset in `finally`" if ok else "construct_dag does not reset _TASK_GRAPH in a finally: a failing block leaves recording on", key="reset")
-    fresh = any(norm(s) == "_TASK_GRAPH = TaskGraph(nx.DiGraph(), {}, SimpleCache())" for s in walk_no_nested(cd.node))
-    ctx.add("5-dag", cd, cd.node, fresh, "each construct_dag starts from an empty graph" if fresh else "construct_dag reuses a previous graph", key="fresh")
+    tr = [t for t in walk_no_nested(cd.node) if isinstance(t, ast.Try) and any(isinstance(y, ast.Yield) for st in t.body for y in ast.walk(st))]
+    reset_fin = bool(tr) and any(isinstance(s_, ast.Assign) and norm(s_.targets[0]) == "_TASK_GRAPH" and norm(s_.value) == "None" for s_ in tr[0].finalbody)
+    reset_any = any(isinstance(s_, ast.Assign) and norm(s_.targets[0]) == "_TASK_GRAPH" and norm(s_.value) == "None" for s_ in ast.walk(cd.node))
+    ctx.tri("5-dag", cd, tr[0] if tr else cd.node, reset_fin, not reset_fin and (reset_any or not tr), "the global task graph is reset in `finally`",
+            "construct_dag does not reset _TASK_GRAPH in a `finally` around the yield: a failing block leaves recording on", key="reset")
+    fresh = any(isinstance(s_, ast.Assign) and norm(s_.targets[0]) == "_TASK_GRAPH" and "TaskGraph(" in norm(Defs(cd).resolve(s_.value)) and "DiGraph()" in norm(Defs(cd).resolve(s_.value)) for s_ in walk_no_nested(cd.node))
+    ctx.tri("5-dag", cd, cd.node, fresh, False, "each construct_dag starts from an empty graph", "", "creation of the task graph not recognised", key="fresh")
+
+
+def check(ctx: Ctx) -> None:
+    for rule in (rule_deferred, rule_memo, rule_recursion, rule_dag):
+        ctx.run(rule)
 
 
 L, B, PF = "pipefunc/lazy.py", "pipefunc/_pipeline/_base.py", "pipefunc/_pipefunc.py"
